@@ -340,7 +340,7 @@ func wReadChunk(src io.Reader) (string, bool) {
 		if p := wFilePipe[r]; p != nil {
 			return p.read()
 		}
-		<-wNever
+		return "", false // an ordinary file (the plugin binary being hashed): its content is not modelled, EOF at once
 	}
 	if st, ok := wAsStream(src); ok {
 		return wStreamReadData(st)
@@ -397,6 +397,8 @@ type wCmdGhost struct {
 }
 
 var wCmdG = map[*exec.Cmd]*wCmdGhost{}
+var wLastCmdEnv []string // what the last started command was given
+var wLastCmdStdin io.Reader
 var wProcOfOS = map[*os.Process]*wProc{}
 
 // wCommand makes an *exec.Cmd whose start launches p
@@ -439,9 +441,12 @@ func mCmdStart(c *exec.Cmd) error {
 		return errors.New("exec: already started")
 	}
 	g.started = true
+	wLastCmdEnv, wLastCmdStdin = c.Env, c.Stdin
 	for _, kv := range c.Env { // the child's environment is what the host built (last duplicate wins)
 		k, v, _ := strings.Cut(kv, "=")
-		vSetenvProc(g.p.id, k, v)
+		if vIsConcrete(k) {
+			vSetenvProc(g.p.id, k, v)
+		}
 	}
 	c.Process = new(os.Process)
 	c.Process.Pid = g.p.pid
